@@ -130,6 +130,9 @@ Proof.
   eapply same_cm_trans; [apply same_cm_set_server | apply same_cm_set_tasks].
 Qed.
 
+Lemma same_cm_asking st s ty : same_cm st (if N.eqb ty RspAsk then enqueue_out st s (FProbe true) else st).
+Proof. destruct (N.eqb ty RspAsk); [apply same_cm_enqueue_out | apply same_cm_refl]. Qed.
+
 Lemma same_cm_dial st p st' s : dial st p = Some (st', s) -> same_cm st st'.
 Proof.
   unfold dial. destruct (pp_dialable p); [|discriminate].
@@ -545,13 +548,13 @@ Proof.
 Qed.
 
 (* ---------- replies ---------- *)
-Lemma on_moved_inv st f mid addr : CInvG st None -> CInvG (on_moved st f mid addr) None.
+Lemma on_moved_inv st f mid ty addr : CInvG st None -> CInvG (on_moved st f mid ty addr) None.
 Proof.
   intro H0. unfold on_moved. set (st1 := mark_moved st mid (frag_slot f)).
   assert (H : CInvG st1 None) by (apply mark_moved_inv, H0).
   destruct (find_pool st1 addr) as [p|].
   - pose proof (same_cm_pool_get st1 p) as Hp. destruct (pool_get st1 p) as [st2 [s|]]; cbn [fst] in Hp.
-    + eapply CInvG_same; [eapply same_cm_trans; [exact Hp | apply same_cm_enqueue_out] | exact H].
+    + eapply CInvG_same; [eapply same_cm_trans; [exact Hp | eapply same_cm_trans; [apply same_cm_asking | apply same_cm_enqueue_out]] | exact H].
     + apply (fail_and_flush_inv st2 mid ErrUnKnownProxyPoolConnError). eapply CInvG_same; eassumption.
   - apply (fail_and_flush_inv st1 mid ErrUnKnownProxyPoolError H).
 Qed.
@@ -736,22 +739,49 @@ Theorem redirect_requeues st s sv f inq' mid slot ty rsp p st1 s2 :
   let stm := mark_moved st0 mid slot in
   frag_done st0 mid slot = false -> (ty = RspMoved \/ ty = RspAsk) ->
   find_pool stm (parse_moved ty rsp) = Some p -> pool_get stm p = (st1, Some s2) ->
-  on_reply st s ty rsp = ROk (enqueue_out st1 s2 f) /\
-  clients (enqueue_out st1 s2 f) = clients st /\
-  (forall x, msg_done (enqueue_out st1 s2 f) x = msg_done st x /\ msg_rsp (enqueue_out st1 s2 f) x = msg_rsp st x).
+  let st2 := if N.eqb ty RspAsk then enqueue_out st1 s2 (FProbe true) else st1 in
+  on_reply st s ty rsp = ROk (enqueue_out st2 s2 f) /\
+  clients (enqueue_out st2 s2 f) = clients st /\
+  (forall x, msg_done (enqueue_out st2 s2 f) x = msg_done st x /\ msg_rsp (enqueue_out st2 s2 f) x = msg_rsp st x).
 Proof.
-  intros Hs Hq Hf st0 stm Hnd Hty Hpool Hget. unfold on_reply. rewrite Hs, Hq. fold st0. subst f. rewrite Hnd.
+  intros Hs Hq Hf st0 stm Hnd Hty Hpool Hget st2. unfold on_reply. rewrite Hs, Hq. fold st0. subst f. rewrite Hnd.
   assert ((ty =? RspMoved) || (ty =? RspAsk) = true)%bool as ->.
   { destruct Hty as [-> | ->]; [reflexivity | apply orb_true_r]. }
   unfold on_moved. cbn [frag_slot]. fold stm. rewrite Hpool, Hget. split; [reflexivity|].
   pose proof (same_cm_pool_get stm p) as (A & B & _). rewrite Hget in A, B. cbn [fst] in A, B.
-  pose proof (same_cm_enqueue_out st1 s2 (FReq mid slot)) as (C & D & _).
+  pose proof (same_cm_enqueue_out st2 s2 (FReq mid slot)) as (C & D & _).
+  assert (E2 : clients st2 = clients st1 /\ msgs st2 = msgs st1).
+  { unfold st2. destruct (N.eqb ty RspAsk); [|split; reflexivity].
+    pose proof (same_cm_enqueue_out st1 s2 (FProbe true)) as (C1 & D1 & _). split; assumption. }
+  destruct E2 as [E2c E2m].
   split.
-  - rewrite C, A. unfold stm, mark_moved. destruct (lookup mid (msgs st0)); reflexivity.
-  - intro x. unfold msg_done, msg_rsp. rewrite D, B. unfold stm, mark_moved.
+  - rewrite C, E2c, A. unfold stm, mark_moved. destruct (lookup mid (msgs st0)); reflexivity.
+  - intro x. unfold msg_done, msg_rsp. rewrite D, E2m, B. unfold stm, mark_moved.
     destruct (lookup mid (msgs st0)) as [m|] eqn:Hm; [|split; reflexivity].
     cbn [set_msg msgs]. rewrite lookup_update. destruct (Nat.eqb_spec x mid) as [->|]; [|split; reflexivity].
     change (msgs st0) with (msgs st) in Hm. rewrite Hm. split; reflexivity.
+Qed.
+
+Lemma enqueue_out_open st s f sv' : lookup s (servers (enqueue_out st s f)) = Some sv' ->
+  exists sv, lookup s (servers st) = Some sv /\ ps_open sv' = ps_open sv /\ ps_addr sv' = ps_addr sv /\ ps_slave sv' = ps_slave sv.
+Proof.
+  unfold enqueue_out. destruct (lookup s (servers st)) as [sv|] eqn:Hs.
+  - cbn [set_tasks set_server servers]. rewrite lookup_update_eq. intro E; inversion E; subst. exists sv. cbn. auto.
+  - intro E. rewrite Hs in E. discriminate.
+Qed.
+
+Lemma enqueue_out_self st s f sv : lookup s (servers st) = Some sv ->
+  exists sv', lookup s (servers (enqueue_out st s f)) = Some sv' /\ ps_open sv' = ps_open sv /\ ps_addr sv' = ps_addr sv /\ ps_slave sv' = ps_slave sv.
+Proof.
+  intro H. unfold enqueue_out. rewrite H. eexists. cbn [set_tasks set_server servers]. rewrite lookup_update_eq.
+  split; [reflexivity|]. cbn. auto.
+Qed.
+
+Lemma asking_self st s ty sv : lookup s (servers st) = Some sv ->
+  exists sv', lookup s (servers (if N.eqb ty RspAsk then enqueue_out st s (FProbe true) else st)) = Some sv' /\
+              ps_open sv' = ps_open sv /\ ps_addr sv' = ps_addr sv /\ ps_slave sv' = ps_slave sv.
+Proof.
+  intro H. destruct (N.eqb ty RspAsk); [apply enqueue_out_self, H | exists sv; auto].
 Qed.
 
 Lemma enqueue_out_tail st s f sv : lookup s (servers st) = Some sv ->
@@ -761,6 +791,25 @@ Proof.
   split; [reflexivity|]. split; reflexivity.
 Qed.
 
+(* an ASK redirect queues ASKING and then the request, next to each other, at the tail of the named
+   node's connection; a MOVED redirect queues the request alone *)
+Theorem redirect_queue st1 s2 f ty sv : lookup s2 (servers st1) = Some sv ->
+  let st2 := if N.eqb ty RspAsk then enqueue_out st1 s2 (FProbe true) else st1 in
+  exists sv', lookup s2 (servers (enqueue_out st2 s2 f)) = Some sv' /\
+              ps_outq sv' = ps_outq sv ++ (if N.eqb ty RspAsk then [FProbe true; f] else [f]) /\
+              ps_got sv' = ps_got sv /\ ps_inq sv' = ps_inq sv.
+Proof.
+  intros H st2. unfold st2. destruct (N.eqb ty RspAsk).
+  - unfold enqueue_out at 2. rewrite H. unfold enqueue_out. cbn [set_tasks set_server servers]. rewrite lookup_update_eq.
+    eexists. cbn [set_tasks set_server servers]. rewrite lookup_update_eq. split; [reflexivity|].
+    cbn [ps_outq ps_got ps_inq]. rewrite <- app_assoc. repeat split; reflexivity.
+  - unfold enqueue_out. rewrite H. eexists. cbn [set_tasks set_server servers]. rewrite lookup_update_eq.
+    split; [reflexivity|]. repeat split; reflexivity.
+Qed.
+
+(* the bytes a write round puts on the wire for ASKING followed by a request *)
+Lemma asking_wire st f : concat (map (frag_req st) [FProbe true; f]) = ReqAsking ++ frag_req st f.
+Proof. cbn [map concat frag_req]. rewrite app_nil_r. reflexivity. Qed.
 
 (* ---------- late replies (C16 / C11): a reply for a fragment that is already done is dropped ---------- *)
 Theorem late_reply_dropped st s sv mid slot inq' ty rsp :
